@@ -270,6 +270,8 @@ inline __m128d _mm_set_pd(vt_f64 e1, vt_f64 e0) { return _mm_setr_pd(e0, e1); }
 inline __m128d _mm_set1_pd(vt_f64 x) { return _mm_setr_pd(x, x); }
 inline __m128d _mm_setzero_pd() { __m128d r; r.l[0] = r.l[2] = VT_SH::dzero(); r.l[1] = r.l[3] = 0; return r; }
 inline __m128d _mm_loadu_pd(vt_f64 const* p) { return _mm_setr_pd(p[0], p[1]); }
+inline __m128d _mm_load1_pd(vt_f64 const* p) { return _mm_setr_pd(p[0], p[0]); }
+inline __m128d _mm_load_sd(vt_f64 const* p) { return _mm_setr_pd(p[0], vt_f64(0)); }
 inline void _mm_storeu_pd(vt_f64* p, __m128d a) { p[0].id = a.l[0]; p[1].id = a.l[2]; }
 inline void _mm_store_sd(vt_f64* p, __m128d a) { p[0].id = a.l[0]; }
 inline __m128d _mm_shuffle_pd(__m128d a, __m128d b, int imm) { __m128d r; r.l[0] = a.l[2 * (imm & 1)]; r.l[2] = b.l[2 * ((imm >> 1) & 1)]; r.l[1] = r.l[3] = 0; return r; }
